@@ -207,10 +207,14 @@ def plan_C19(tier, seed):
         for eng in ("debug", "release"):
             shards.append(sh(eng, "arena", seed, 100 + n, ma=ma, iters=(40 if q else 4000), ops=150, profile="faults"))
             n += 1
+    # Vec programs containing splices whose replacement honestly announces an unreservable count
+    for i, eng in enumerate(("debug", "release")):
+        shards.append(sh(eng, "vecdiff", seed, 300 + i, iters=(300 if q else 4000), ops=150))
+        shards.append(sh(eng, "vecdiff", seed, 310 + i, iters=(200 if q else 3000), ops=150, tracked=1))
     return dict(level="exploration", exhaustive=True,
                 rule=("one evaluation = one (entry point, element size, boundary count, arena/vector state, flavour) cell of a finite grid enumerated completely in debug and release for every MIN_ALIGN, "
                       "plus random histories mixing huge requests with ordinary ones; distinct = distinct grid cells"),
-                shards=shards, require={"c19.grid_err": 1000, "c19.grid_panic": 1000, "c19.vec_err": 2000, "c19.vec_panic": 2000, "c19.huge_err": 2000},
+                shards=shards, require={"c19.grid_err": 1000, "c19.grid_panic": 1000, "c19.vec_err": 2000, "c19.vec_panic": 2000, "c19.huge_err": 2000, "c19.refused_splice_reservations_checked": 100},
                 assumptions=ASSUME_COMMON + ["the global allocator refuses chunk requests above 64 MiB, so an Ok for a request whose true size exceeds that cannot be backed by memory"])
 
 
